@@ -265,7 +265,7 @@ fn gen_heavy_case(cur: &mut crate::gen::Cursor) -> Value {
         }
         _ => gen_position(cur),
     };
-    json!({"fen": p.fen(), "src": src})
+    crate::common::with_twin(cur, json!({"fen": p.fen(), "src": src}))
 }
 
 /// Appending to a caller-supplied fixed-capacity list: once the 256 slots are used up the safe sink must refuse
